@@ -446,7 +446,11 @@ func collectSignedHeaders(r *http.Request, headersToInclude []string) []pair {
 	for headerKey, headerValues := range r.Header {
 		headerKey = strings.ToLower(headerKey)
 		if includeInCanonicalHeaders(headerKey, headersToInclude) {
-			headerVal := strings.TrimSpace(strings.Join(headerValues, ","))
+			cleanedValues := make([]string, len(headerValues))
+			for i, v := range headerValues {
+				cleanedValues[i] = collapseSpaces(v)
+			}
+			headerVal := strings.Join(cleanedValues, ",")
 			headers = append(headers, pair{
 				key: headerKey,
 				val: headerVal,
@@ -457,6 +461,16 @@ func collectSignedHeaders(r *http.Request, headersToInclude []string) []pair {
 		return cmp.Compare(a.key, b.key)
 	})
 	return headers
+}
+
+// collapseSpaces trims a header value and converts sequential spaces to a
+// single space, as SigV4 requires for canonical header values.
+func collapseSpaces(v string) string {
+	v = strings.TrimSpace(v)
+	for strings.Contains(v, "  ") {
+		v = strings.ReplaceAll(v, "  ", " ")
+	}
+	return v
 }
 
 func generateCanonicalHeaders(r *http.Request, headersToInclude []string) string {
